@@ -134,7 +134,7 @@ func (api *API) mapDecodeBasedOnType(ctx context.Context, mapVal any, value refl
 				return nil
 			}
 
-			return api.mapDecodeSlice(ctx, mapVal, sliceValue, sliceValueType, ts, opts)
+			return api.mapDecodeArray(ctx, mapVal, value.Elem(), sliceValueType, ts, opts)
 		}
 
 	case reflect.Struct:
@@ -165,7 +165,7 @@ func (api *API) mapDecodeBasedOnType(ctx context.Context, mapVal any, value refl
 			return nil
 		}
 
-		return api.mapDecodeSlice(ctx, mapVal, sliceValue, sliceValueType, ts, opts)
+		return api.mapDecodeArray(ctx, mapVal, value, sliceValueType, ts, opts)
 	case reflect.Interface:
 		return api.mapDecodeInterface(ctx, mapVal, value, valueType, ts, opts)
 	case reflect.String:
@@ -509,6 +509,22 @@ func (api *API) mapDecodeSlice(ctx context.Context, mapVal any, value reflect.Va
 			return ierrors.Wrapf(err, "can't deserialize '%s' type", value.Kind())
 		}
 	}
+
+	return nil
+}
+
+// mapDecodeArray handles an array of objects like a slice:
+// it decodes into an addressable slice, then copies the elements back into the array.
+func (api *API) mapDecodeArray(ctx context.Context, mapVal any, arrayValue reflect.Value,
+	sliceValueType reflect.Type, ts TypeSettings, opts *options) error {
+	decodedSlice := reflect.New(sliceValueType).Elem()
+	if err := api.mapDecodeSlice(ctx, mapVal, decodedSlice, sliceValueType, ts, opts); err != nil {
+		return err
+	}
+	if decodedSlice.Len() != arrayValue.Len() {
+		return ierrors.Errorf("array of length %d can't be map decoded from %d elements", arrayValue.Len(), decodedSlice.Len())
+	}
+	fillArrayFromSlice(arrayValue, decodedSlice)
 
 	return nil
 }
